@@ -173,9 +173,9 @@ def model_indent(ind):
 
 SYMBOL_RE = re.compile(r'[^\s"\'()\/:;<=>[\]{}]+')
 LNK_RE = re.compile(r'<(?:-?\d+[:#]-?\d+|@\d+|\d+(?: +\d+)*)>')
-PEN_ATOM_RE = re.compile(r"[A-Za-z0-9_+\-.*é日]+")
+PEN_ATOM_RE = re.compile(r"[\w+\-.*\u0301]+")
 XML_NAME_RE = re.compile(r"[A-Za-z_][A-Za-z0-9_.\-]*")
-PEN_ROLE_RE = re.compile(r"[A-Z][A-Z0-9\-]*")
+PEN_ROLE_RE = re.compile(r"[^\W\d_][\w\-]*")
 POSTS = ["EQ", "NEQ", "H", "HEQ"]
 BAD_CHARS = set(chr(c) for c in list(range(0, 32)) + [0x7f, 0x85, 0x2028, 0x2029] + list(range(0x80, 0xa0)))
 
@@ -193,6 +193,16 @@ def ascii_case_safe(s):
     return all(ord(c) < 128 or (c.lower() == c and c.upper() == c) for c in s)
 
 
+def lower_safe(s):
+    """str.lower() agrees with the ASCII model: every non-ASCII character is its own lower case"""
+    return all(ord(c) < 128 or c.lower() == c for c in s) and s.lower() == "".join(
+        c.lower() if ord(c) < 128 else c for c in s)
+
+
+def upper_safe(s):
+    return all(ord(c) < 128 or c.upper() == c for c in s)
+
+
 def lnk_kind(l):
     return "none" if l is None or l.type == Lnk.UNSPECIFIED else \
         {Lnk.CHARSPAN: "charspan", Lnk.CHARTSPAN: "chartspan", Lnk.TOKENS: "tokens", Lnk.EDGE: "edge"}[l.type]
@@ -208,7 +218,7 @@ def common_domain(d):
         if n.type not in ("x", "e", "i", "u", "p", None):
             return False
         for k, v in n.properties.items():
-            if not k or not v or not ascii_case_safe(k) or not ascii_case_safe(v):
+            if not k or not v:
                 return False
             if k.upper() != k or v.lower() != v or not text_ok(k) or not text_ok(v):
                 return False
@@ -249,7 +259,7 @@ def lex_ok(d):
 def case_safe_sd(d):
     for n in d.nodes:
         for k, v in n.properties.items():
-            if not ascii_case_safe(k) or not ascii_case_safe(v):
+            if not ascii_case_safe(k) or not lower_safe(v):
                 return False
     return True
 
@@ -263,7 +273,9 @@ def in_domain(codec, d):
     if codec == "x":
         for n in d.nodes:
             p = n.predicate
-            if predicate.normalize(p) != p or not ascii_case_safe(p) or p.strip() != p:
+            if predicate.normalize(p) != p or p.strip() != p:
+                return False
+            if any(k.lower().upper() != k for k in n.properties):
                 return False
             if any(k.lower() == "cvarsort" or not XML_NAME_RE.fullmatch(k) for k in n.properties):
                 return False
@@ -277,7 +289,8 @@ def in_domain(codec, d):
         if len(set(ids)) != len(ids) or d.top is None or d.top not in ids or not charspans:
             return False
         for l in d.links:
-            if l.role is None or not PEN_ROLE_RE.fullmatch(l.role) or l.start not in ids or l.end not in ids:
+            if l.role is None or not PEN_ROLE_RE.fullmatch(l.role) or l.start not in ids or l.end not in ids \
+                    or l.role.upper() != l.role or (l.role + "-" + l.post).islower():
                 return False
         for n in d.nodes:
             if not PEN_ATOM_RE.fullmatch(n.predicate):
@@ -431,27 +444,37 @@ def compare_view(cname, want, got):
 
 PREDS = ["_rain_v_1", "_dog_n_1", "_the_q", "named", "udef_q", "_big_a_1", "neg", "_and_c", "pron", "_in_p_loc",
          "_a_n", "_a_b_n_1", "_a_n_1_2", "_abc", "_", "compound", "_x-y_a_1", "_a+b_n_1", "_look_v_up-at",
-         "card", "_a.b_n_1", "_é_n_1", "_日本_n_1", "a_b", "_1_n_2", "_a_u_unknown", "_a_z_1", "_a_n_"]
+         "card", "_a.b_n_1", "_é_n_1", "_日本_n_1", "a_b", "_1_n_2", "_a_u_unknown", "_a_z_1", "_a_n_",
+         "_straße_n_1", "_ﬁn_n_1", "_ſo_a_1", "_ısı_v_1", "_λόγος_n_1", "_σοφία_n_1", "_cafe\u0301_n_1", "_café_n_1",
+         "_ａｂｃ_n_1", "straße_q", "_maß_n_ß"]
 ODD_PREDS = ["_Dog_n_1", "_dog_n_1_rel", "\"_dog_n_1_rel\"", "'dog", "_a_n_rel_rel", "a b", "_a b_n_1", " x", "_a_N_1",
-             "_a(b_n_1", "_a\"b_n_1", "a:b", "_a/b_n_1", "<x>", "_REL", "_rel", "rel", "x_rel", "_a_n_1_REL", "dmrs", "x=y"]
+             "_a(b_n_1", "_a\"b_n_1", "a:b", "_a/b_n_1", "<x>", "_REL", "_rel", "rel", "x_rel", "_a_n_1_REL", "dmrs", "x=y",
+             "_Straße_n_1", "_İstanbul_n_1", "_ΣΟΦΟΣ_n_1", "_ＡＢ_n_1", "_ǅ_n_1", "_a\u2028b_n_1", "_a\x85b_n_1", "_a\x0cb_n_1",
+             "_straße_n_1_ＲＥＬ", "_a\u3000b_n_1"]
 TYPES = ["x", "e", "i", "u", "p", None]
 PROP_POOL = [("TENSE", ["past", "pres", "untensed"]), ("NUM", ["sg", "pl"]), ("PERS", ["3", "1"]), ("IND", ["+", "-"]),
              ("GEND", ["m-or-f", "n"]), ("SF", ["prop", "prop-or-ques"]), ("MOOD", ["indicative"]), ("PERF", ["-"]),
-             ("PROG", ["+"]), ("PT", ["std"]), ("X1", ["y"]), ("ZED", ["a.b"]), ("ASPECT", ["u"]), ("A", ["b"])]
+             ("PROG", ["+"]), ("PT", ["std"]), ("X1", ["y", "ﬁ"]), ("ZED", ["a.b", "ς"]), ("ASPECT", ["u"]), ("A", ["b"]),
+             ("SF", ["straße"]), ("MOOD", ["ſıe\u0301", "ａ"]), ("ΑΣ", ["ς"])]
 ODD_PROPS = [("tense", "past"), ("TENSE", "PAST"), ("Tense", "Past"), ("cvarsort", "x"), ("CVARSORT", "x"),
              ("A B", "c"), ("A", "b c"), ("É", "é"), ("A=B", "c"), ("INSTANCE", "x"), ("LNK", "x"), ("CARG", "x"),
-             ("1", "2"), ("K", "")]
-ROLES = ["ARG1", "ARG2", "ARG3", "RSTR", "L-INDEX", "R-HNDL", "MOD", "ARG", "ARG1"]
-ODD_ROLES = [None, "", "arg1", "A B", "Arg1", ":X", "1", "A/B"]
+             ("1", "2"), ("K", ""), ("SF", "STRASSE"), ("SF", "ΟΔΟΣ"), ("SF", "İ"), ("STRAßE", "x"), ("ǅ", "ǅ")]
+ROLES = ["ARG1", "ARG2", "ARG3", "RSTR", "L-INDEX", "R-HNDL", "MOD", "ARG", "ARG1", "ARGΣ", "ＡＲＧ１", "ARG-日"]
+ODD_ROLES = [None, "", "arg1", "A B", "Arg1", ":X", "1", "A/B", "straße", "ARGß", "ﬁ", "argς"]
 TEXT_PIECES = ["a", "b", "Kim", " ", "\"", "\\", "\\\\", "\\\"", "'", "é", "日本", "\U0001F600", "<", ">", "&", "(", ")",
-               ":", ";", "=", "[", "]", "{", "}", "/", "#", "@", "-1", "0", "&amp;", " ", "x y", "\"\"", "\\n"]
+               ":", ";", "=", "[", "]", "{", "}", "/", "#", "@", "-1", "0", "&amp;", " ", "x y", "\"\"", "\\n",
+               "ß", "ς", "σ", "Σ", "ﬁ", "ſ", "İ", "ı", "e\u0301", "é", "ａ", "Ａ", "Straße", "ǅ"]
+LINE_PIECES = ["\x0b", "\x0c", "\x1c", "\x1d", "\x1e", "\x85", "\u2028", "\u2029", "\t", "\n", "\r\n"]
 IDENTS = ["id1", "x-1", "42", "dmrs", "a.b", "É"]
 ODD_IDENTS = ["", "a b", "a\"b", "{"]
 
 
-def gen_text(rng, allow_empty=True):
+def gen_text(rng, allow_empty=True, odd=False):
     n = rng.choice([0, 1, 1, 2, 2, 3, 4, 6]) if allow_empty else rng.choice([1, 1, 2, 3, 5])
-    return "".join(rng.choice(TEXT_PIECES) for _ in range(n))
+    pieces = [rng.choice(TEXT_PIECES) for _ in range(n)]
+    if odd:   # Unicode line boundaries: outside the property's quantifier, model correspondence only
+        pieces.insert(rng.randrange(len(pieces) + 1), rng.choice(LINE_PIECES))
+    return "".join(pieces)
 
 
 def gen_lnk(rng, odd):
@@ -504,7 +527,7 @@ def gen_dmrs(rng, odd=0.0, max_nodes=7):
                 v = rng.choice(vs)
             if k not in [p[0] for p in props]:
                 props.append([k, v])
-        carg = gen_text(rng) if rng.random() < 0.35 else None
+        carg = gen_text(rng, odd=isodd() and rng.random() < 0.4) if rng.random() < 0.35 else None
         nodes.append({"id": ids[i], "pred": cps(pred), "type": ocps(ty), "props": [[cps(k), cps(v)] for k, v in props],
                       "carg": ocps(carg), "lnk": gen_lnk(rng, isodd()),
                       "surface": ocps(gen_text(rng)) if rng.random() < 0.2 else None,
@@ -551,7 +574,7 @@ def gen_dmrs(rng, odd=0.0, max_nodes=7):
             jl.insert(rng.randrange(0, len(jl) + 1), {"start": 0, "stop": 10000 + 5, "role": cps("X"), "post": cps("EQ")})
     return {"top": top, "index": index, "nodes": nodes, "links": jl,
             "lnk": gen_lnk(rng, isodd()) if rng.random() < 0.6 else None,
-            "surface": ocps(gen_text(rng)) if rng.random() < 0.5 else None,
+            "surface": ocps(gen_text(rng, odd=isodd() and rng.random() < 0.4)) if rng.random() < 0.5 else None,
             "identifier": ocps(rng.choice(ODD_IDENTS) if isodd() else rng.choice(IDENTS)) if rng.random() < 0.35 else None}
 
 
@@ -836,7 +859,7 @@ class C02(Check):
             return None
         if k == "pred":
             p = uncps(case["p"])
-            if not ascii_case_safe(p) or (set(p) & BAD_CHARS):
+            if not lower_safe(p) or (set(p) & BAD_CHARS):
                 return None
             for f in ("normalize", "is_surface", "enc", "dec"):
                 r = cmp(f, expected_[f], answer[f])
@@ -861,10 +884,10 @@ class C02(Check):
                     return r
         for c in ("x", "j", "p"):
             for i, d in enumerate(ds):
-                safe = all(ascii_case_safe(n.predicate) and all(ascii_case_safe(a) and ascii_case_safe(b)
-                                                                 for a, b in n.properties.items())
-                           and (n.type is None or ascii_case_safe(n.type)) for n in d.nodes) \
-                    and all(l.role is None or ascii_case_safe(l.role) for l in d.links)
+                safe = all(lower_safe(n.predicate) and all(ascii_case_safe(a) and lower_safe(b)
+                                                           for a, b in n.properties.items())
+                           and (n.type is None or lower_safe(n.type)) for n in d.nodes) \
+                    and (c != "p" or all(l.role is None or upper_safe(l.role) for l in d.links))
                 if not safe or any(set(n.predicate) & BAD_CHARS for n in d.nodes):
                     continue
                 for f in ("enc", "dec"):
